@@ -40,6 +40,8 @@ package listener
 //@   requires conn != nil
 //@   modifies conn.*, G_closes(conn), G_isclosed(conn)
 //@   callsite net.Dial#1 (forward *addr.ProtoAddress) require forward != nil && forward.Host != "" && forward.Scheme != ""     :dials_only_a_complete_forward_address
+//@   callsite net.Dial#1 (arg0 string, arg1 string, forward *addr.ProtoAddress) require arg0 == forward.Scheme && arg1 == forward.Host     :dials_exactly_the_forward_address
+//@   callsite PipeData#1 (arg0 io.ReadWriteCloser) require spec_sameref(arg0, conn)                                                          :pipes_the_local_connection_to_it
 //@   ensures old(l.Forward) == nil ==> !result                                                                  :no_forward_address_means_not_handled
 //@   property C14, C17
 //@   ensures result && !old(reportsClosedL(conn)) ==> G_closes(conn) == old(G_closes(conn)) + 1                   :handled_directly_means_closed
@@ -47,6 +49,11 @@ package listener
 //@ func (l *AbstractListener) HandleConnection
 //@   property C16
 //@   requires conn != nil && !spec_sameref(conn, nil) && l.Config != nil && upstream.UpstreamsInv(l.Upstreams)
+// C02: one logical connection never ends the session all logical connections share (that is reserved for the
+// client's shutdown): the token is not held here, and Upstreams.Shutdown requires it
+//@   property C02
+//@   requires !upstream.G_client_stopping()                                                                     :an_ordinary_connection_not_the_shutdown
+//@   property C16
 //@   callsite ConnectDirectly#1 (ok bool) assume G_snap_direct() == ok "ghost snapshot: the direct attempt handled the connection"
 //@   callsite Connect#1 () require !G_snap_direct()                                                             :upstreams_only_after_the_direct_attempt_failed
 // C14 / C17 / C01: the local connection is piped to the upstream stream it was given, and when handling ends
